@@ -117,9 +117,11 @@ def run(ctx):
         return
     model_bad, ref_bad, known = [], [], set()
     for ci, r in enumerate(results):
-        model_bad += [(ci * 40 + x // 1000, x % 1000) for x in r["model"]]
-        ref_bad += [(ci * 40 + x // 1000, x % 1000) for x in r["ref"]]
-        known |= {(ci * 40 + x // 1000, x % 1000) for x in r["known"]}
+        def pairs(xs):
+            return [(ci * 40 + xs[q], xs[q + 1]) for q in range(0, len(xs) - 1, 2)]
+        model_bad += pairs(r["model"])
+        ref_bad += pairs(r["ref"])
+        known |= set(pairs(r["known"]))
     # tie 1: the model predicts every observable of every step
     ctx.tie(not model_bad)
     for (i, j) in model_bad[:5]:
